@@ -1,5 +1,5 @@
 import TypVerif.Gen.Avl
-import TypVerif.Props.C01Gen
+import TypVerif.Props.C01Shapes
 import TypVerif.Model.Avl
 import TypVerif.Lemmas.AvlBasic
 /-
@@ -43,9 +43,9 @@ theorem gen_balance_zero_iff (lh rh : Int) : Gen.Avl.balance lh rh = 0 ↔ (lh -
 example : Gen.Avl.calcHeight true true (-1) (-1) = 0 := by decide
 example : Gen.Avl.balance 1 (-1) = -1 := by decide
 
-/-- the function shapes of avl.go (recursion structure, stores, returns), regenerated on every run, are the ones the model mirrors
-(`C01.gen_avl_function_shapes`): a skipped rebalance or an early return on any path is a broken obligation of C02 as well -/
+/-- the function shapes of avl.go (recursion structure, stores, conditions, returns), regenerated on every run, are the ones the model mirrors
+(`C01.gen_shapes_avl`): a skipped rebalance or an early return on any path is a broken obligation of C02 as well -/
 theorem gen_avl_function_shapes : Gen.AvlShapes.funcs.length = 34 ∧ (Gen.AvlShapes.funcs.map Prod.fst).Nodup :=
-  ⟨by rw [C01.gen_avl_function_shapes]; rfl, by rw [C01.gen_avl_function_shapes]; decide⟩
+  ⟨by rw [C01.gen_shapes_avl]; rfl, by rw [C01.gen_shapes_avl]; decide⟩
 
 end C02
